@@ -2,7 +2,7 @@
    a REQ is never met with silence, the subscription limit holds.
    Statements are about RELAY.Model (every schedule = every list of operations accepted by
    `run`); proofs are in RELAY/Proofs.v. *)
-From NR Require Import Lib.Base Lib.Nip01 Filt.Model Live.Model RELAY.Model RELAY.Proofs.
+From NR Require Import Lib.Base Lib.Nip01 Filt.Model Live.Model RELAY.Model RELAY.Proofs RELAY.Eose.
 Open Scope Z_scope.
 
 (* (e) in every reachable state every connection holds at most subscription_limit subscriptions *)
@@ -12,6 +12,15 @@ Theorem C13_limit : forall cfg ops st,
   sub_limit cfg = 0 \/ Z.of_nat (length (c_subs x)) <= sub_limit cfg.
 Proof. intros cfg ops st Hl Hr. exact (limit_invariant cfg ops init st Hl (AllWithin_init cfg) Hr). Qed.
 Print Assumptions C13_limit.
+
+(* (a) over EVERY schedule: the number of EOSE frames a connection has been sent for a subscription id, plus the
+   registrations under that id whose query task has not finished yet, never exceeds the number of REQs it sent
+   for that id: at most one EOSE per REQ, none for a REQ that was refused, closed or replaced before its task ended *)
+Theorem C13_eose_at_most_one_per_req : forall cfg ops st c x sid,
+  kv_backend cfg = false -> run cfg init ops = SOkS st -> get_conn c (r_conns st) = Some x ->
+  (eose_n sid (c_out x) + pend sid x <= reqs c sid ops)%nat.
+Proof. exact eose_at_most_one_per_req. Qed.
+Print Assumptions C13_eose_at_most_one_per_req.
 
 (* (e) a REQ refused for the limit leaves the existing subscriptions, the other connections and the
    pending tasks as they were, and is answered by a NOTICE *)
